@@ -590,6 +590,9 @@ func shrinkRecipe(rc Recipe, f Failure) Recipe {
 		})
 		return k == "ok"
 	}
+	if rc.Recv != nil || rc.Recv2 != nil {
+		rc = shrinkRecv(rc, still)
+	}
 	if rc.File != "" {
 		return shrinkTableFile(rc, still)
 	}
